@@ -1194,6 +1194,10 @@ func buildMessageFieldSchema(pkg *Package, context fieldContext, src protoreflec
 			return nil, err
 		}
 
+	} else if flatten && ref.To == nil {
+		// the message is still being built: it contains itself through this
+		// field, flattening it would never end.
+		return nil, fmt.Errorf("field %s: cannot flatten a message into itself", src.FullName())
 	}
 	if isOneofWrapper {
 		return &OneofField{
